@@ -103,8 +103,22 @@ func (a *Agent) Start(p pool.Pool) error {
 		a.mu.Unlock()
 		return ErrAlreadyStarted
 	}
+	a.started = true
 	a.mu.Unlock()
 
+	if err := a.start(p); err != nil {
+		// Nothing is running, the agent can be started again.
+		a.mu.Lock()
+		a.started = false
+		a.mu.Unlock()
+		return err
+	}
+	return nil
+}
+
+// start registers on the pool and spawns the update loop, it is called by
+// Start with the started flag held.
+func (a *Agent) start(p pool.Pool) error {
 	startCtx, cancel := context.WithTimeout(context.Background(), startTimeout)
 	defer cancel()
 
@@ -142,7 +156,13 @@ func (a *Agent) Start(p pool.Pool) error {
 	}
 
 	go func() {
-		a.waitCh <- a.serveUpdates(p)
+		err := a.serveUpdates(p)
+		// The loop has ended (stopped, or a failed update), so the agent is
+		// no longer running.
+		a.mu.Lock()
+		a.started = false
+		a.mu.Unlock()
+		a.waitCh <- err
 	}()
 	return nil
 }
